@@ -192,7 +192,7 @@ func runC02(c *Ctx) {
 // C05: decode_ref(NewMnemonicByEntropy(e)) == e; single-bit flips change the
 // mnemonic; injectivity by counting.
 func runC05(c *Ctx) {
-	c.res.Rule = "entropy scopes x 10 languages; per (entropy, language) the implementation's mnemonic is split on its separator, decoded by the independent bit-array decoder over golden dictionaries and compared with the input bytes; per size 8 base entropies x every single-bit flip must change the mnemonic and decode to the flipped entropy; injectivity: distinct mnemonic digests == distinct entropies per (size, language); distinct_nontrivial = distinct entropies"
+	c.res.Rule = "entropy scopes x 10 languages; per (entropy, language) the implementation's mnemonic is split on its separator, decoded by the independent bit-array decoder over golden dictionaries and compared with the input bytes; per size 8 base entropies x every single-bit flip must change the mnemonic and decode to the flipped entropy (fresh slices, and again flipping in place in one reused buffer); injectivity: distinct mnemonic digests == distinct entropies per (size, language); distinct_nontrivial = distinct entropies"
 	c.Assume("golden lists are canonical")
 	type key struct{ si, l int }
 	var mu sync.Mutex
@@ -264,6 +264,26 @@ func runC05(c *Ctx) {
 		}
 	}
 	c.AddScope("single-bit flips of 8 bases per size x 10 languages", flips, true, "")
+	// the same flips done IN PLACE on one caller-owned buffer, sequentially: the encoder must look
+	// at the bytes it is given now, not at what the same backing array held on the previous call
+	var inplace int64
+	for _, L := range enum.EntLens {
+		buf := append([]byte(nil), enum.Rep(L)[5]...)
+		for l := 0; l < ref.NLang; l++ {
+			for bit := 0; bit < 8*L; bit++ {
+				buf[bit/8] ^= 1 << uint(7-bit%8)
+				got, err := bip39.NewMnemonicByEntropy(buf, Langs[l])
+				c.Eval(1)
+				inplace++
+				if want := c.M.Encode(buf, l); err != nil || got != want {
+					c.Violate(fmt.Sprintf("inplace:%s:%d:%d", hx(buf), bit, l),
+						fmt.Sprintf("after flipping bit %d of a reused entropy buffer in place (now %s, %s): got %q, want %q", bit, hx(buf), ref.LangNames[l], got, want),
+						map[string]interface{}{"kind": "encode-inplace", "entropy": hx(buf), "bit": bit, "lang": l})
+				}
+			}
+		}
+	}
+	c.AddScope("in-place single-bit flips on one reused buffer per size x 10 languages (sequential)", inplace, true, "")
 	e := enum.Rep(16)[5]
 	c.Sample(3, map[string]interface{}{"entropy": hx(e), "lang": "Korean", "mnemonic": c.M.Encode(e, 6), "decoded": hx(e)})
 }
